@@ -34,7 +34,9 @@ CHECKS = {
             "unbounded iteration bounds; for every result on every path z3 proves it is a bijective re-indexing of "
             "the original box (ownership/weights read off the concrete matrices of all operands; range, injectivity "
             "and cardinality are unsat queries under the path condition). The dart-scheduler pass is covered on "
-            "concrete shapes with the same oracle. Counterexamples are replayed by enumerating both boxes.",
+            "concrete shapes with the same oracle; the operation's access maps are read independently of the compiler's "
+            "from_affine_map (values at the origin and unit points, linearity checked on the box; non-linear maps must be refused). "
+            "Counterexamples are replayed by enumerating both boxes.",
             "access matrices, tile sizes and templates are concrete (enumerated families incl. the real gemmx/alu/xdma "
             "templates); at most 40 yields per path.",
             "symbolic execution of the real Python + z3 unsat queries (LIA) per path", "3/C03"),
@@ -187,20 +189,20 @@ CHECKS = {
             "Translation validation on a buffer-contents machine: generated functions (arguments, allocations, a constant global, a "
             "memref-typed constant, row-tile subviews with static and symbolic offsets, accelerator operations as linalg.generic / "
             "dart.operation in any order, inside loops with symbolic trip counts and in both branches of conditionals, copies and other consumers on the original "
-            "buffers, optional returned buffer, a family where one constant is tiled by several views) run before and after "
+            "buffers, optional returned buffer, a family where one constant is tiled by several views, a family with one shared cast per allocation at function level over writers two regions below it) run before and after "
             "alloc-to-global, set-memory-space, layout casts to random dense tiled-strided layouts on accelerator operands (as "
             "set-memory-layout places them), realize-memref-casts. Buffers are z3 arrays with symbolic contents; the after-program "
             "addresses every element through an independent evaluation of the layout in the value's type; z3 proves per consumer "
             "and element that it reads the same logical value as in the source program, that final argument contents and returned "
             "buffers agree, and that every subview result type addresses the elements it views; accelerator operands are in L1, the "
             "signature keeps L3/row-major. transform_constant: per dense layout, symbolic logical index over distinct element values "
-            "(parametric in the values); transpose_tuple on symbolic contents.",
+            "(parametric in the values); realize-memref-casts on modules whose operand is a constant global of every element type (i8..f64, index) reached through casts; transpose_tuple on symbolic contents.",
             "programs and layouts sampled by VERIF_SEED; 4x4/2x4 buffers; K=2 unrolling; accelerator operations are assumed to overwrite "
             "their whole output and not to read it; three known findings (one fill and one copy-back per cast value) are suppressed "
             "by signature only, using a taint analysis of the after-run that never decides an obligation.",
             "bounded symbolic execution of before/after IR on z3 arrays + per-element equalities and layout-address identities discharged by z3", "3/C12"),
     "C13": (OT,
-            "Generated functions mixing memref.copy (data mover), linalg.generic and dart streaming regions (compute core / xDMA) and un-dispatched consumers on shared "
+            "Generated functions mixing memref.copy (data mover), linalg.generic and dart streaming regions (compute core / xDMA, incl. rescale kernels between i32 and i8 buffers) and un-dispatched consumers on shared "
             "allocations and function arguments, subviews with symbolic offsets, nested loops with symbolic and constant (partial "
             "last tile, single trip) ranges, conditionals with symbolic conditions, pre-existing barriers and deallocs go through the real insert-sync-barrier. The output "
             "is executed on a barrier-synchronised multi-core machine (symbolic IR interpreter): barriers cut each path into epochs "
@@ -212,10 +214,10 @@ CHECKS = {
             "bounded symbolic execution of the pass output on an epoch/race machine; region disjointness discharged by z3 per access pair", "3/C13"),
     "C14": (TV,
             "Translation validation of dispatch-regions{nb_cores=N} (N in {2,3,4,8}): generated functions (nested scf.for/scf.if, "
-            "memref.copy, linalg.generic, dart streaming regions on snax_gemmx/snax_xdma, other ops, adjacent and separated, optionally "
-            "two blocks) run before/after the pass in the IR interpreter with a symbolic core id (0<=id<N), symbolic loop bounds and "
+            "memref.copy, linalg.generic, dart streaming regions on snax_gemmx/snax_xdma with kernels the xDMA extensions implement and kernels they do not, other ops, adjacent and separated, optionally "
+            "two blocks, loops already split into pipeline.stage blocks) run before/after the pass in the IR interpreter with a symbolic core id (0<=id<N), symbolic loop bounds and "
             "branch conditions; on every path the trace of tagged effectful ops must equal the original trace filtered by an "
-            "independent classification (data movement iff id==N-1, compute iff id==0, everything else always), order preserved.",
+            "independent classification (data movement iff id==N-1, compute iff id==0, everything else always; the table of extension kernels is written down in the harness), order preserved.",
             "programs sampled by VERIF_SEED; K=2 unrolling; the solver's share is small (three classes of core id + control paths); "
             "the upstream function-constant-pinning pass is run on the single-block programs after dispatching and the pinned module must give the same per-core trace (its own correctness beyond these programs is not claimed).",
             "bounded symbolic execution of before/after IR with a symbolic core id + trace comparison per path", "3/C14"),
